@@ -130,7 +130,7 @@ def run(tier):
     n_embed_fail = 0
     corpus = rdk.corpus()
     if tier == "quick":
-        corpus = corpus[::3]
+        corpus = rdk.quick_subset(corpus, 3)
     seeds = [7] if tier == "quick" else [7, 11, 42]
     ident = drive.IDM
     for name, smi in corpus:
